@@ -105,6 +105,7 @@ func runC15(c *Ctx) {
 		c.Reach(r5, f, "an unserialisable message is not written", ReachSpec{FromEdge: &serr, Stop: `^select\{`, Target: `^call:invoke:transport\.WebsocketConnection\.WriteMessage\[%w\.conn\]\(%w\.payloadType`, Want: false})
 	}
 	ruleKeepAliveCloses(c, r5)
+	ruleWebsocketServerProtocols(c, r5)
 	c.R.Floor(r5, 9)
 
 	const r6 = "C15.R6 numeric arguments are read type-tolerantly (same behaviour for every serializer)"
